@@ -735,6 +735,43 @@ class Program:
             g._straight = r
         return r
 
+    def inline_closure_calls(self, t, depth=3):
+        """t with every direct call of a local closure `f(a, b)` (MIR: {closure}(&f, (a, b))) replaced by the closure's value: parameters
+        become the argument terms, captured variables the captured terms.  Only closures with one return site whose term mentions no
+        other closure-local state are replaced."""
+        if depth <= 0:
+            return t
+
+        def one(n):
+            if tag(n) != 'call' or n[1] not in self.pdb.bodies or len(n[2]) != 2:
+                return n
+            cl, tup = n[2]
+            if not (tag(cl) == 'agg' and cl[1] == 'closure' and tag(tup) == 'agg' and tup[1] == 'tuple'):
+                return n
+            g = self.func(n[1])
+            if g is None or g.body.kind != 'closure':
+                return n
+            rets = g.return_values()
+            if len(rets) != 1 or not self.straight_line(g):
+                return n
+            bad = []
+
+            def sub(m):
+                if tag(m) == 'upvar':
+                    if m[1] < len(cl[3]):
+                        return cl[3][m[1]]
+                    bad.append(m)
+                elif tag(m) == 'arg':
+                    if 2 <= m[1] < 2 + len(tup[3]):
+                        return tup[3][m[1] - 2]
+                    bad.append(m)
+                elif tag(m) in ('local', 'item'):
+                    bad.append(m)
+                return m
+            out = map_term(rets[0], sub)
+            return n if bad else self.inline_closure_calls(out, depth - 1)
+        return map_term(t, one)
+
     def inline(self, t, depth=3, only=None):
         """t with every call of a straight-line in-crate helper replaced by the helper's value: a helper qualifies when it has one
         return site whose term mentions no callee-local state (multi-definition locals, loop items, upvars); its parameters are
